@@ -9,6 +9,7 @@ import (
 	"os"
 	"path/filepath"
 	"reflect"
+	"sort"
 	"strings"
 	"testing"
 
@@ -182,6 +183,239 @@ type mon struct {
 	key    crypto.PrivateKey
 	pw     []byte
 	info   map[string]any
+	// ct is "the stored ciphertext" as the caller holds it (the slice handed to every decryption, directly or as a
+	// derived slice sharing its backing array); ctCopy is a private copy never shown to the code under test.
+	ct, ctCopy []byte
+	ctModified int
+}
+
+// stored is the purity monitor: decryption is a function of (ciphertext, password) only, so the caller's stored
+// ciphertext must hold the same bytes after ANY decryption attempt (otherwise the next decryption of the stored
+// ciphertext with the same password no longer returns the same key). On a hit the buffer is re-synchronised from
+// the private copy so that the following probes stay meaningful.
+type stored struct {
+	c         *vcommon.Case
+	buf, priv []byte
+	hits      int
+}
+
+func (s *stored) check(call string, wit func(ex map[string]any) map[string]any) bool {
+	s.c.Eval(1)
+	s.c.Count("stored_ciphertext_checked", 1)
+	if bytes.Equal(s.buf, s.priv) {
+		return true
+	}
+	after := vcommon.Hex(s.buf)
+	first, changed, zeroed := -1, 0, 0
+	for i := range s.buf {
+		if s.buf[i] != s.priv[i] {
+			if first < 0 {
+				first = i
+			}
+			changed++
+			if s.buf[i] == 0 {
+				zeroed++
+			}
+		}
+	}
+	copy(s.buf, s.priv)
+	s.hits++
+	if s.hits > 3 { // bounded log; every hit is still counted
+		s.c.Count("stored_ciphertext_modified_more", 1)
+		return false
+	}
+	s.c.Violation("ciphertext-modified", fmt.Sprintf("%s modified the caller's stored ciphertext (decryption is not a pure function of ciphertext and password; a later decryption of the same slice cannot return the same key)", call),
+		wit(map[string]any{"call": call, "stored_before": vcommon.Hex(s.priv), "stored_after": after,
+			"first_changed_offset": first, "bytes_changed": changed, "of_which_now_zero": zeroed}))
+	return false
+}
+
+func (m *mon) checkStored(call string, extra func() map[string]any) bool {
+	s := &stored{c: m.c, buf: m.ct, priv: m.ctCopy, hits: m.ctModified}
+	ok := s.check(call, func(ex map[string]any) map[string]any {
+		if extra != nil {
+			for k, v := range extra() {
+				ex[k] = v
+			}
+		}
+		return m.wit(ex)
+	})
+	m.ctModified = s.hits
+	return ok
+}
+
+func (m *mon) decryptPK(data, pw []byte) (pk crypto.PrivateKey, err error, panicked any) {
+	defer func() {
+		if p := recover(); p != nil {
+			panicked = p
+		}
+	}()
+	pk, err = keystore.DecryptPrivateKey(data, pw, m.scheme)
+	return
+}
+
+// retKey is a key handed out by an earlier decryption together with the bytes it exposed at that moment.
+type retKey struct {
+	k    crypto.PrivateKey
+	enc  []byte
+	step int
+}
+
+// stillSame decides "never a different key" for keys that were ALREADY returned: whatever happens afterwards to the
+// ciphertext buffer (further decryptions, the caller overwriting it) must not turn them into another key.
+func (m *mon) stillSame(got []retKey, after string, ops []string) bool {
+	for _, g := range got {
+		m.c.Eval(1)
+		ok, why := sameKey(m.key, g.k)
+		if ok && !bytes.Equal(g.k.Encode(), g.enc) {
+			ok, why = false, "its Encode() bytes changed"
+		}
+		if !ok {
+			m.c.Violation("returned-key-changed", fmt.Sprintf("the key returned by decryption #%d changed after %s: %s (the key shares memory with a buffer that later decryptions or the caller write)", g.step, after, why),
+				m.wit(map[string]any{"ops": ops, "key_bytes_at_return": vcommon.Hex(g.enc), "key_bytes_now": vcommon.Hex(g.k.Encode())}))
+			return false
+		}
+	}
+	return true
+}
+
+func sortedNames(m map[string][]byte) []string {
+	out := make([]string, 0, len(m))
+	for k := range m {
+		out = append(out, k)
+	}
+	sort.Strings(out)
+	return out
+}
+
+// repeatedDecrypts decrypts the SAME stored slice again and again: right, wrong, right, right, then a seeded tail of
+// right / wrong passwords and truncation / front-dropped probes passed as derived slices of the stored buffer. Each
+// right-password attempt must return the same key, each other attempt an error, whatever was attempted before.
+func (m *mon) repeatedDecrypts() {
+	c, r := m.c, m.c.R
+	nm := nearMisses(r, m.pw)
+	names := sortedNames(nm)
+	seq := []string{"right", "wrong", "right", "right"}
+	for i, n := 0, r.Range(4, 8); i < n; i++ {
+		seq = append(seq, vcommon.Pick(r, []string{"right", "right", "wrong", "wrong", "truncated", "truncated_cap_kept", "front_dropped"}))
+	}
+	seq = append(seq, "right")
+	prev := "right" // runKeyCase already decrypted this slice once with the right password
+	ops := []string{"DecryptPrivateKey(ct, right)"}
+	var got []retKey
+	for i, s := range seq {
+		data, pw, desc := m.ct, m.pw, "DecryptPrivateKey(ct, right)"
+		switch s {
+		case "wrong":
+			name := vcommon.Pick(r, names)
+			pw, desc = nm[name], "DecryptPrivateKey(ct, wrong:"+name+")"
+		case "truncated":
+			n := r.Intn(len(m.ct))
+			data, desc = m.ct[:n:n], fmt.Sprintf("DecryptPrivateKey(ct[:%d:%d], right)", n, n)
+		case "truncated_cap_kept":
+			n := r.Intn(len(m.ct))
+			data, desc = m.ct[:n], fmt.Sprintf("DecryptPrivateKey(ct[:%d], right)", n)
+		case "front_dropped":
+			n := r.Range(1, 13)
+			data, desc = m.ct[n:], fmt.Sprintf("DecryptPrivateKey(ct[%d:], right)", n)
+		}
+		ops = append(ops, desc)
+		step := i + 2
+		wit := func() map[string]any {
+			w := map[string]any{"ops": ops, "step": step}
+			if len(pw) <= 128 {
+				w["password_used"] = vcommon.Hex(pw)
+			}
+			return w
+		}
+		pk, err, pan := m.decryptPK(data, pw)
+		c.Eval(1)
+		c.Count("repeat_decrypts_same_slice", 1)
+		c.Count("repeat_decrypts_"+m.scheme, 1)
+		if pan != nil {
+			c.Violation("panic", fmt.Sprintf("%s (attempt #%d on the same stored ciphertext) panicked: %v", desc, step, pan), m.wit(wit()))
+			return
+		}
+		intact := m.checkStored(fmt.Sprintf("attempt #%d on the same slice, %s,", step, desc), wit)
+		if s == "right" {
+			if err != nil {
+				w := wit()
+				w["stored_intact_before_call"] = true
+				c.Violation("repeat-decrypt", fmt.Sprintf("attempt #%d on the same stored ciphertext with the right password (previous attempt: %s) failed: %v", step, prev, err), m.wit(w))
+				return
+			}
+			if ok, why := sameKey(m.key, pk); !ok {
+				c.Violation("repeat-decrypt", fmt.Sprintf("attempt #%d on the same stored ciphertext with the right password (previous attempt: %s) returned a different key: %s", step, prev, why), m.wit(wit()))
+				return
+			}
+			got = append(got, retKey{k: pk, enc: append([]byte{}, pk.Encode()...), step: step})
+			c.Count("right_after_"+prev+"_ok", 1)
+			c.Count("right_after_"+prev+"_"+m.scheme, 1)
+		} else {
+			if err == nil {
+				same, _ := sameKey(m.key, pk)
+				w := wit()
+				w["same_key"] = same
+				c.Violation("tamper-accepted", fmt.Sprintf("%s (attempt #%d on the same stored ciphertext) returned a key, no error", desc, step), m.wit(w))
+				return
+			}
+			c.Count("repeat_"+s+"_rejected", 1)
+		}
+		if !m.stillSame(got, desc, ops) || !intact {
+			return
+		}
+		prev = s
+	}
+	c.Count("repeat_sequences_completed", 1)
+	c.Count("repeat_sequences_"+m.scheme, 1)
+}
+
+// aliasing decides that a returned key and the ciphertext buffer it came from are independent objects, in both
+// directions, on a scratch copy d of the stored ciphertext: writing the key bytes the key type exposes must leave d
+// unchanged, and the caller overwriting d must leave the already returned key the same key.
+func (m *mon) aliasing() {
+	c := m.c
+	d := append([]byte{}, m.ctCopy...)
+	k, err, pan := m.decryptPK(d, m.pw)
+	c.Eval(1)
+	if pan != nil || err != nil {
+		c.Violation("roundtrip", fmt.Sprintf("DecryptPrivateKey of a copy of the stored ciphertext: err=%v panic=%v", err, pan), m.wit(nil))
+		return
+	}
+	if ok, why := sameKey(m.key, k); !ok {
+		c.Violation("roundtrip", "DecryptPrivateKey of a copy of the stored ciphertext is a different key: "+why, m.wit(nil))
+		return
+	}
+	s := &stored{c: c, buf: d, priv: m.ctCopy}
+	s.check("DecryptPrivateKey(copy of ct, right)", m.wit)
+	dNow := append([]byte{}, d...)
+	// direction 1: key bytes -> ciphertext
+	enc := k.Encode()
+	encAtReturn := append([]byte{}, enc...)
+	for i := range enc {
+		enc[i] ^= 0xa5
+	}
+	exposed := !bytes.Equal(k.Encode(), encAtReturn)
+	c.Eval(1)
+	if !bytes.Equal(d, dNow) {
+		c.Violation("key-aliases-ciphertext", "writing the bytes of the returned key changed the ciphertext buffer it was decrypted from",
+			m.wit(map[string]any{"buffer_before": vcommon.Hex(dNow), "buffer_after": vcommon.Hex(d)}))
+		return
+	}
+	if exposed {
+		c.Count("key_bytes_exposed_and_mutated_"+m.scheme, 1)
+		copy(enc, encAtReturn)
+	} else {
+		c.Count("key_bytes_not_exposed_"+m.scheme, 1)
+	}
+	// direction 2: ciphertext -> already returned key
+	for i := range d {
+		d[i] ^= 0x5a
+	}
+	if m.stillSame([]retKey{{k: k, enc: encAtReturn, step: 1}}, "the caller overwrote the ciphertext buffer", []string{"d := copy(ct)", "k := DecryptPrivateKey(d, right)", "d[i] ^= 0x5a for all i"}) {
+		c.Count("ciphertext_overwritten_key_unchanged", 1)
+		c.Count("alias_probe_"+m.scheme, 1)
+	}
 }
 
 func (m *mon) wit(extra map[string]any) map[string]any {
@@ -211,6 +445,7 @@ func (m *mon) mustFail(kind string, data, pw []byte, extra map[string]any) {
 		pk  crypto.PrivateKey
 		err error
 	)
+	before := append([]byte{}, data...)
 	func() {
 		defer func() {
 			if p := recover(); p != nil {
@@ -220,6 +455,15 @@ func (m *mon) mustFail(kind string, data, pw []byte, extra map[string]any) {
 		}()
 		pk, err = keystore.DecryptPrivateKey(data, pw, m.scheme)
 	}()
+	// the stored ciphertext survives every attempt (data is the stored slice, a derived slice sharing its backing
+	// array, or a scratch copy); a scratch copy being rewritten is only counted
+	if m.checkStored("DecryptPrivateKey on a "+kind+" input", func() map[string]any {
+		ex := mkex()
+		ex["data_before_call"] = vcommon.Hex(before)
+		return ex
+	}) && !bytes.Equal(data, before) {
+		c.Count("unasserted_rejected_scratch_input_rewritten", 1)
+	}
 	if err == nil {
 		same, _ := sameKey(m.key, pk)
 		ex := mkex()
@@ -293,6 +537,79 @@ func (m *mon) readFile(path string, pw []byte) (pk crypto.PrivateKey, err error,
 	return
 }
 
+// repeatedFileReads reads the SAME stored key file again and again (right, wrong, right, right, seeded tail): the file
+// content stays byte-identical, every right-password read returns the same key, every other read an error, and keys
+// handed out earlier stay the same key (also after the caller scribbled over the bytes an earlier key exposes).
+func (m *mon) repeatedFileReads(path string, raw []byte, first crypto.PrivateKey) bool {
+	c, r := m.c, m.c.R
+	nm := nearMisses(r, m.pw)
+	names := sortedNames(nm)
+	seq := []string{"right", "wrong", "right", "right"}
+	for i, n := 0, r.Range(1, 3); i < n; i++ {
+		seq = append(seq, vcommon.Pick(r, []string{"right", "wrong"}))
+	}
+	seq = append(seq, "right")
+	ops := []string{"ReadFromFileAndDecrypt(file, right)"}
+	got := []retKey{{k: first, enc: append([]byte{}, first.Encode()...), step: 1}}
+	// the caller writes the key bytes the first key exposes, then restores them: later reads are unaffected
+	if enc := first.Encode(); len(enc) > 0 {
+		for i := range enc {
+			enc[i] ^= 0xa5
+		}
+		if !bytes.Equal(first.Encode(), got[0].enc) {
+			copy(enc, got[0].enc)
+		}
+	}
+	prev := "right"
+	for i, s := range seq {
+		pw, desc := m.pw, "ReadFromFileAndDecrypt(file, right)"
+		if s == "wrong" {
+			name := vcommon.Pick(r, names)
+			pw, desc = nm[name], "ReadFromFileAndDecrypt(file, wrong:"+name+")"
+		}
+		ops = append(ops, desc)
+		step := i + 2
+		pk, err, pan := m.readFile(path, pw)
+		c.Eval(2)
+		c.Count("file_repeat_reads", 1)
+		w := map[string]any{"ops": ops, "step": step, "file": string(raw)}
+		if pan != nil {
+			c.Violation("panic", fmt.Sprintf("%s (read #%d of the same file) panicked: %v", desc, step, pan), m.wit(w))
+			return false
+		}
+		now, rerr := os.ReadFile(path)
+		if rerr != nil || !bytes.Equal(now, raw) {
+			w["file_after"] = string(now)
+			c.Violation("file-modified", fmt.Sprintf("%s (read #%d) changed the stored key file (read error: %v)", desc, step, rerr), m.wit(w))
+			return false
+		}
+		if s == "right" {
+			if err != nil {
+				c.Violation("repeat-decrypt", fmt.Sprintf("read #%d of the same key file with the right password (previous read: %s) failed: %v", step, prev, err), m.wit(w))
+				return false
+			}
+			if ok, why := sameKey(m.key, pk); !ok {
+				c.Violation("repeat-decrypt", fmt.Sprintf("read #%d of the same key file with the right password (previous read: %s) returned a different key: %s", step, prev, why), m.wit(w))
+				return false
+			}
+			got = append(got, retKey{k: pk, enc: append([]byte{}, pk.Encode()...), step: step})
+			c.Count("file_right_after_"+prev+"_ok", 1)
+		} else {
+			if err == nil {
+				c.Violation("tamper-accepted", fmt.Sprintf("%s (read #%d of the same file) returned a key, no error", desc, step), m.wit(w))
+				return false
+			}
+			c.Count("file_repeat_wrong_rejected", 1)
+		}
+		if !m.stillSame(got, desc, ops) {
+			return false
+		}
+		prev = s
+	}
+	c.Count("file_repeat_sequences_completed", 1)
+	return true
+}
+
 func (m *mon) tamperFile(dir string) {
 	c, r := m.c, m.c.R
 	path := filepath.Join(dir, "k.key")
@@ -309,6 +626,7 @@ func (m *mon) tamperFile(dir string) {
 	if c.Failed() {
 		return
 	}
+	raw0, _ := os.ReadFile(path) // the stored file as written, before any read
 	c.Eval(1)
 	pk, err, pan := m.readFile(path, m.pw)
 	if pan != nil || err != nil {
@@ -323,6 +641,13 @@ func (m *mon) tamperFile(dir string) {
 	raw, err := os.ReadFile(path)
 	if err != nil {
 		c.Inconclusive("cannot read back key file: " + err.Error())
+		return
+	}
+	if raw0 != nil && !bytes.Equal(raw, raw0) {
+		c.Violation("file-modified", "ReadFromFileAndDecrypt (right password) changed the key file", m.wit(map[string]any{"file_before": string(raw0), "file_after": string(raw)}))
+		return
+	}
+	if !m.repeatedFileReads(path, raw, pk) {
 		return
 	}
 	var ks keystore.EncryptedKeystore
@@ -485,6 +810,7 @@ func runKeyCase(c *vcommon.Case, scheme string, seed []byte, pwc pwClass, pw []b
 		c.Violation("input-mutated", "EncryptPrivateKey modified its inputs", m.wit(nil))
 	}
 	m.info["ciphertext"] = vcommon.Hex(ct)
+	m.ct, m.ctCopy = ct, append([]byte{}, ct...)
 	back, err := keystore.DecryptPrivateKey(ct, pw, scheme)
 	c.Eval(1)
 	if err != nil {
@@ -493,6 +819,12 @@ func runKeyCase(c *vcommon.Case, scheme string, seed []byte, pwc pwClass, pw []b
 	}
 	if ok, why := sameKey(key, back); !ok {
 		c.Violation("roundtrip", "DecryptPrivateKey(EncryptPrivateKey(k,p),p) is a different key: "+why, m.wit(nil))
+		return
+	}
+	backEnc := append([]byte{}, back.Encode()...)
+	if !m.checkStored("the first DecryptPrivateKey(ct, right password)", nil) {
+		// ct was re-synchronised from the private copy: is the key handed out before still the same key?
+		m.stillSame([]retKey{{k: back, enc: backEnc, step: 1}}, "the caller restored its ciphertext buffer", []string{"k := DecryptPrivateKey(ct, right)", "copy(ct, private copy of ct)"})
 		return
 	}
 	// the decrypted key is functionally the original: its signature verifies under the original public key
@@ -523,7 +855,31 @@ func runKeyCase(c *vcommon.Case, scheme string, seed []byte, pwc pwClass, pw []b
 			c.Violation("roundtrip", fmt.Sprintf("second encryption does not round-trip: %v", err), m.wit(map[string]any{"ciphertext2": vcommon.Hex(ct2)}))
 		}
 	}
+	m.repeatedDecrypts()
+	if c.Failed() {
+		return
+	}
+	m.aliasing()
+	if c.Failed() {
+		return
+	}
 	m.tamperInMemory(ct)
+	// after every probe above: one more right-password decryption of the same slice, the key handed out first is
+	// still the same key, and the password buffer was never written
+	last, err, pan := m.decryptPK(ct, pw)
+	c.Eval(2)
+	if pan != nil || err != nil {
+		c.Violation("repeat-decrypt", fmt.Sprintf("right-password decryption of the stored ciphertext after all tamper probes: err=%v panic=%v", err, pan), m.wit(nil))
+	} else if ok, why := sameKey(key, last); !ok {
+		c.Violation("repeat-decrypt", "right-password decryption of the stored ciphertext after all tamper probes returned a different key: "+why, m.wit(nil))
+	} else {
+		c.Count("right_after_all_tamper_probes_ok", 1)
+	}
+	m.checkStored("the final DecryptPrivateKey(ct, right password)", nil)
+	m.stillSame([]retKey{{k: back, enc: backEnc, step: 1}}, "all tamper probes on the same buffer", nil)
+	if !bytes.Equal(pw, pwCopy) {
+		c.Violation("input-mutated", "a decryption modified the caller's password buffer", m.wit(nil))
+	}
 	if withFile {
 		base := os.Getenv("VERIF_TMP")
 		if base == "" {
@@ -554,11 +910,24 @@ func rawMessages(c *vcommon.Case, msgLen int) {
 		return
 	}
 	w["ciphertext"] = vcommon.Hex(ct)
+	st := &stored{c: c, buf: ct, priv: append([]byte{}, ct...)}
 	dec := func(kind string, data, p []byte) ([]byte, error) {
 		var (
 			out []byte
 			err error
 		)
+		before := append([]byte{}, data...)
+		defer func() {
+			if st.check("Decrypt on a "+kind+" input", func(ex map[string]any) map[string]any {
+				ex["kind"], ex["data_before_call"], ex["password_used"] = kind, vcommon.Hex(before), vcommon.Hex(p)
+				for k, v := range w {
+					ex[k] = v
+				}
+				return ex
+			}) && !bytes.Equal(data, before) {
+				c.Count("unasserted_rejected_scratch_input_rewritten", 1)
+			}
+		}()
 		func() {
 			defer func() {
 				if pv := recover(); pv != nil {
@@ -576,6 +945,12 @@ func rawMessages(c *vcommon.Case, msgLen int) {
 	}
 	pt, err := dec("intact", ct, pw)
 	c.Eval(1)
+	if c.Failed() { // the stored ciphertext was modified (reported, buffer re-synchronised)
+		if err == nil && !bytes.Equal(pt, msg) {
+			c.Violation("returned-key-changed", "the plaintext returned by Decrypt changed when the caller restored its ciphertext buffer (it shares memory with it)", w)
+		}
+		return
+	}
 	if err != nil || !bytes.Equal(pt, msg) {
 		c.Violation("roundtrip", fmt.Sprintf("Decrypt(Encrypt(m,p),p)=%s err=%v", vcommon.Hex(pt), err), w)
 		return
@@ -583,6 +958,105 @@ func rawMessages(c *vcommon.Case, msgLen int) {
 	c.Count("raw_message_roundtrips_ok", 1)
 	if msgLen == 0 {
 		c.Count("raw_message_empty", 1)
+	}
+	if c.Failed() {
+		return
+	}
+	// the same stored slice decrypted repeatedly: right, wrong, right, right, seeded tail (incl. derived slices)
+	{
+		nm := nearMisses(r, pw)
+		names := sortedNames(nm)
+		seq := []string{"right", "wrong", "right", "right"}
+		for i, n := 0, r.Range(3, 6); i < n; i++ {
+			seq = append(seq, vcommon.Pick(r, []string{"right", "right", "wrong", "wrong", "truncated", "truncated_cap_kept", "front_dropped"}))
+		}
+		seq = append(seq, "right")
+		ops := []string{"Decrypt(ct, right)"}
+		outs := [][]byte{pt}
+		prev := "right"
+		for i, s := range seq {
+			data, p, desc := ct, pw, "Decrypt(ct, right)"
+			switch s {
+			case "wrong":
+				name := vcommon.Pick(r, names)
+				p, desc = nm[name], "Decrypt(ct, wrong:"+name+")"
+			case "truncated":
+				n := r.Intn(len(ct))
+				data, desc = ct[:n:n], fmt.Sprintf("Decrypt(ct[:%d:%d], right)", n, n)
+			case "truncated_cap_kept":
+				n := r.Intn(len(ct))
+				data, desc = ct[:n], fmt.Sprintf("Decrypt(ct[:%d], right)", n)
+			case "front_dropped":
+				n := r.Range(1, 13)
+				data, desc = ct[n:], fmt.Sprintf("Decrypt(ct[%d:], right)", n)
+			}
+			ops = append(ops, desc)
+			out, err := dec("repeat:"+desc, data, p)
+			c.Eval(1)
+			c.Count("raw_repeat_decrypts_same_slice", 1)
+			w2 := map[string]any{"ops": ops, "step": i + 2, "returned": vcommon.Hex(out)}
+			for k, v := range w {
+				w2[k] = v
+			}
+			if c.Failed() {
+				return
+			}
+			if s == "right" {
+				if err != nil || !bytes.Equal(out, msg) {
+					c.Violation("repeat-decrypt", fmt.Sprintf("attempt #%d on the same stored ciphertext with the right password (previous attempt: %s): err=%v", i+2, prev, err), w2)
+					return
+				}
+				outs = append(outs, out)
+				c.Count("raw_right_after_"+prev+"_ok", 1)
+			} else if err == nil {
+				c.Violation("tamper-accepted", fmt.Sprintf("%s (attempt #%d on the same stored ciphertext) returned a plaintext, no error", desc, i+2), w2)
+				return
+			}
+			for j, o := range outs {
+				c.Eval(1)
+				if !bytes.Equal(o, msg) {
+					w2["earlier_plaintext_now"] = vcommon.Hex(o)
+					c.Violation("returned-key-changed", fmt.Sprintf("the plaintext returned by decryption #%d changed after %s", j+1, desc), w2)
+					return
+				}
+			}
+			prev = s
+		}
+	}
+	// aliasing in both directions on a scratch copy of the stored ciphertext
+	if msgLen > 0 {
+		d := append([]byte{}, st.priv...)
+		out, err := keystore.Decrypt(d, pw)
+		c.Eval(3)
+		if err != nil || !bytes.Equal(out, msg) {
+			c.Violation("roundtrip", fmt.Sprintf("Decrypt of a copy of the stored ciphertext: %s err=%v", vcommon.Hex(out), err), w)
+			return
+		}
+		if !bytes.Equal(d, st.priv) {
+			w["buffer_after"] = vcommon.Hex(d)
+			c.Violation("ciphertext-modified", "Decrypt(copy of ct, right password) modified the ciphertext buffer", w)
+			return
+		}
+		for i := range out {
+			out[i] ^= 0xa5
+		}
+		if !bytes.Equal(d, st.priv) {
+			w["buffer_after"] = vcommon.Hex(d)
+			c.Violation("key-aliases-ciphertext", "writing the returned plaintext changed the ciphertext buffer it was decrypted from", w)
+			return
+		}
+		for i := range out {
+			out[i] ^= 0xa5
+		}
+		for i := range d {
+			d[i] ^= 0x5a
+		}
+		if !bytes.Equal(out, msg) {
+			w["returned_now"] = vcommon.Hex(out)
+			c.Violation("returned-key-changed", "the plaintext already returned by Decrypt changed when the caller overwrote the ciphertext buffer", w)
+			return
+		}
+		c.Count("raw_alias_probe_ok", 1)
 	}
 	bad := func(kind string, data, p []byte) {
 		c.Eval(1)
@@ -698,6 +1172,29 @@ func TestVerifC37(t *testing.T) {
 	r.Floor("raw_message_roundtrips_ok", 100)
 	r.Floor("raw_message_empty", 1)
 	r.Floor("decrypted_key_signature_verified", 150)
+	// purity: the stored ciphertext survives any number of attempts
+	r.Floor("stored_ciphertext_checked", 150000)
+	r.Floor("repeat_decrypts_same_slice", 2000)
+	r.Floor("right_after_wrong_ok", 250)
+	r.Floor("right_after_right_ok", 400)
+	r.Floor("right_after_truncated_ok", 30)
+	r.Floor("right_after_truncated_cap_kept_ok", 30)
+	r.Floor("right_after_front_dropped_ok", 30)
+	r.Floor("right_after_all_tamper_probes_ok", 150)
+	for _, s := range schemes {
+		r.Floor("repeat_decrypts_"+s, 600)
+		r.Floor("repeat_sequences_"+s, 60)
+		r.Floor("right_after_wrong_"+s, 70)
+		r.Floor("alias_probe_"+s, 60)
+	}
+	r.Floor("key_bytes_exposed_and_mutated_"+crypto.Ed25519Type, 60)
+	r.Floor("ciphertext_overwritten_key_unchanged", 150)
+	r.Floor("file_repeat_reads", 250)
+	r.Floor("file_right_after_wrong_ok", 50)
+	r.Floor("file_right_after_right_ok", 50)
+	r.Floor("raw_repeat_decrypts_same_slice", 700)
+	r.Floor("raw_right_after_wrong_ok", 100)
+	r.Floor("raw_alias_probe_ok", 80)
 
 	fc := fixedCorpus()
 	r.Fixed("fixed", len(fc), func(c *vcommon.Case) {
